@@ -31,7 +31,7 @@ def plan(tier, seed):
     S = [{"kind": "direct", "stream": i, "n": 600 if q else 8000} for i in range(4 if q else 12)]
     S += [{"kind": "tmpl", "stream": i, "n": 3 if q else 30} for i in range(2 if q else 8)]
     S += [{"kind": "frontend", "stream": i, "n": 60 if q else 700} for i in range(4 if q else 12)]
-    # TODO(VSA): SolverVSA / SolverHybrid answers depend on VSA soundness (C21-C24 mechanisms); added with their classifiers
+    S += [{"kind": "vsa", "stream": i, "n": 600 if q else 6000} for i in range(2 if q else 6)]
     return S
 
 
@@ -113,7 +113,7 @@ def run_shard(spec, res):
                     del keep[:-50]
         truth.judge_events(res, tmo, kind)
     elif kind == "frontend":
-        classes = [claripy.Solver, claripy.SolverCacheless, claripy.SolverComposite, claripy.SolverReplacement, claripy.SolverConcrete, claripy.SolverStrings]
+        classes = [claripy.Solver, claripy.SolverCacheless, claripy.SolverComposite, claripy.SolverReplacement, claripy.SolverConcrete, claripy.SolverStrings, claripy.SolverHybrid, claripy.SolverVSA]
         for it in range(spec["n"]):
             cls = classes[it % len(classes)]
             w = rng.choice([4, 8, 32])
